@@ -138,6 +138,16 @@ CHECKS = {
                 'translates by the window origin; NDSize <=,<,>,>= have the element-wise meaning the guards rely on; subscripts on '
                 'caller-owned vectors are bounded. Which elements a position pair selects is numeric: NOT decided.',
     },
+    'C08': {
+        'technique': 'static analysis: interprocedural clean/dirty typestate over the closed-world call graph and per-function CFGs '
+                     '(mutate-before-throw), guard refutation by propagated validator facts, conditional exception table, R-VAL',
+        'text': 'Decides the structure of C08 for all 234 public mutating API roots: no explicit argument-rejecting throw is reachable '
+                'after a file-mutating HDF5 call of the same API call, unless its guard is refuted by facts established before the '
+                'mutation or it is discharged by a named table entry whose structural precondition (a dominating pre-check) is '
+                're-verified on every run; plus validate-before-create at every create entry point. 9 instances (Group member '
+                'replacement, sources(vector) with an uninitialised handle) are recorded known findings. State equality itself and '
+                'rejections raised inside libhdf5 are not decided.',
+    },
 }
 
 _NYI = 'check not built yet in this session (planned in DESIGN.md); not claimed until its rule runs and is validated'
